@@ -16,21 +16,21 @@ import (
 
 func init() {
 	register(&Check{ID: "C07", Run: runC07, Expl: oblig.Explanation{
-		Text: "Static order-preservation check of the Writer. (R1) batchQueue is a FIFO: Put appends at the tail, Get returns element 0 and keeps [1:], both under the queue mutex (cond.L is that mutex). (R2) single sender per partition: batchQueue.Get and (*partitionWriter).writeBatch have exactly one caller (writeBatches), which is spawned exactly once, by the function that allocates the partitionWriter, and calls writeBatch synchronously; nothing reachable from writeBatch re-enqueues a batch or starts a goroutine. (R3) every queue.Put in partitionWriter methods happens with partitionWriter.mutex held, enqueues the value of currBatch (same SSA value, or under a currBatch == x guard), and is followed by currBatch = nil before the mutex is released: a batch is enqueued at most once and batches enter the queue in creation order. (R4) in-batch order: indexes are visited in slice order, add appends at the tail, WriteMessages appends message indexes in ascending order. Not decided: order in the broker's log under real failures; cross-goroutine submission order.",
-		Rule: "one obligation per queue operation, per Put site, per caller fact; non-trivial = SSA instructions inspected",
-		Trusted: []string{"go/ssa", "must-lockset of C10", "static call graph of the root package"},
+		Text:        "Static order-preservation check of the Writer. (R1) batchQueue is a FIFO: Put appends at the tail, Get returns element 0 and keeps [1:], both under the queue mutex (cond.L is that mutex). (R2) single sender per partition: batchQueue.Get and (*partitionWriter).writeBatch have exactly one caller (writeBatches), which is spawned exactly once, by the function that allocates the partitionWriter, and calls writeBatch synchronously; nothing reachable from writeBatch re-enqueues a batch or starts a goroutine. (R3) every queue.Put in partitionWriter methods happens with partitionWriter.mutex held, enqueues the value of currBatch (same SSA value, or under a currBatch == x guard), and is followed by currBatch = nil before the mutex is released: a batch is enqueued at most once and batches enter the queue in creation order. (R4) in-batch order: indexes are visited in slice order, add appends at the tail, WriteMessages appends message indexes in ascending order. Not decided: order in the broker's log under real failures; cross-goroutine submission order.",
+		Rule:        "one obligation per queue operation, per Put site, per caller fact; non-trivial = SSA instructions inspected",
+		Trusted:     []string{"go/ssa", "must-lockset of C10", "static call graph of the root package"},
 		Assumptions: []string{"a batch with all its retries completes inside writeBatch before the sender takes the next one (synchronous call)"},
 	}})
 	register(&Check{ID: "C08", Run: runC08, Expl: oblig.Explanation{
-		Text: "Static batch-limit and flush check. (R1) truth tables over a value grid: add refuses iff size > 0 ∧ bytes+n > maxBytes; full iff size ≥ maxSize ∨ bytes ≥ maxBytes; a message is too large iff n > batchBytes; chooseTopic errors iff both or neither topic is set. (R2) in writeMessages a refused add closes the batch (trigger, Put, currBatch = nil) and retries; after an accepted add, full is evaluated and, when true, the batch is closed, on every path. (R3) validation of all messages (size, topic, partitions) precedes the first batchMessages call. (R4) every batch installed as currBatch comes from (*partitionWriter).newWriteBatch, which starts exactly one awaitBatch waiter and whose timer is time.NewTimer(w.batchTimeout()); trigger is called only in the critical section that also clears currBatch. (R5) the limits compared are w.batchSize()/w.batchBytes() and the size measure is Message.totalSize() both in validation and in add. Not decided: timing ('once BatchTimeout has elapsed', 'as soon as'), byte size on the wire.",
-		Rule: "one obligation per predicate (exhaustive over a {0..3}^k grid), per path rule, per flow fact",
-		Trusted: []string{"go/ssa", "order/grid interpreter (internal/an/ordertab.go)"},
+		Text:        "Static batch-limit and flush check. (R1) truth tables over a value grid: add refuses iff size > 0 ∧ bytes+n > maxBytes; full iff size ≥ maxSize ∨ bytes ≥ maxBytes; a message is too large iff n > batchBytes; chooseTopic errors iff both or neither topic is set. (R2) in writeMessages a refused add closes the batch (trigger, Put, currBatch = nil) and retries; after an accepted add, full is evaluated and, when true, the batch is closed, on every path. (R3) validation of all messages (size, topic, partitions) precedes the first batchMessages call. (R4) every batch installed as currBatch comes from (*partitionWriter).newWriteBatch, which starts exactly one awaitBatch waiter and whose timer is time.NewTimer(w.batchTimeout()); trigger is called only in the critical section that also clears currBatch. (R5) the limits compared are w.batchSize()/w.batchBytes() and the size measure is Message.totalSize() both in validation and in add. Not decided: timing ('once BatchTimeout has elapsed', 'as soon as'), byte size on the wire.",
+		Rule:        "one obligation per predicate (exhaustive over a {0..3}^k grid), per path rule, per flow fact",
+		Trusted:     []string{"go/ssa", "order/grid interpreter (internal/an/ordertab.go)"},
 		Assumptions: []string{"BatchSize/BatchBytes are positive (the accessors substitute defaults otherwise)"},
 	}})
 	register(&Check{ID: "C01", Run: runC01, Expl: oblig.Explanation{
-		Text: "Static attribution/retry check of the Writer. (R1) error fan-out: WriteErrors has len(msgs) entries; entry i receives the err of the batch whose index list contains i (key and value of the same map iteration); it is returned iff some awaited batch failed. (R2) batch.err is read only after receiving from that batch's done channel; complete() stores err before close(done) and is the only closer. (R3) retry loop: produce is called while attempt < maxAttempts(); a non-nil response overwrites err with res.Error; the loop ends on err == nil or on an error that is neither temporary nor a transient network error. (R4) after the loop Completion (when set) and batch.complete receive the err that left the loop, complete exactly once. (R5) request identity: the ProduceRequest is built from the partition writer's own topic/partition key, the writer's acks/compression and a fresh record reader over batch.msgs on every attempt; in WriteMessages the partition comes from Balancer.Balance, the topic from chooseTopic; each message index is appended once to the batch that accepted it. (R6) Client.Produce maps the partition's error code/message into ProduceResponse.Error and wraps round-trip errors. (R7) Error.Temporary()'s retriable code list is unchanged since review. Not decided: that the broker appended anything; duplicates under lost acks; interleavings of callers and timers.",
-		Rule: "one obligation per flow/path fact; non-trivial = SSA instructions inspected",
-		Trusted: []string{"go/ssa", "value provenance (internal/an/flow.go)", "reviewed list of retriable error codes"},
+		Text:        "Static attribution/retry check of the Writer. (R1) error fan-out: WriteErrors has len(msgs) entries; entry i receives the err of the batch whose index list contains i (key and value of the same map iteration); it is returned iff some awaited batch failed. (R2) batch.err is read only after receiving from that batch's done channel; complete() stores err before close(done) and is the only closer. (R3) retry loop: produce is called while attempt < maxAttempts(); a non-nil response overwrites err with res.Error; the loop ends on err == nil or on an error that is neither temporary nor a transient network error. (R4) after the loop Completion (when set) and batch.complete receive the err that left the loop, complete exactly once. (R5) request identity: the ProduceRequest is built from the partition writer's own topic/partition key, the writer's acks/compression and a fresh record reader over batch.msgs on every attempt; in WriteMessages the partition comes from Balancer.Balance, the topic from chooseTopic; each message index is appended once to the batch that accepted it. (R6) Client.Produce maps the partition's error code/message into ProduceResponse.Error and wraps round-trip errors. (R7) Error.Temporary()'s retriable code list is unchanged since review. Not decided: that the broker appended anything; duplicates under lost acks; interleavings of callers and timers.",
+		Rule:        "one obligation per flow/path fact; non-trivial = SSA instructions inspected",
+		Trusted:     []string{"go/ssa", "value provenance (internal/an/flow.go)", "reviewed list of retriable error codes"},
 		Assumptions: []string{"the transport delivers the request it is given (C04/C12) and returns the broker's answer (C06)"},
 	}})
 }
@@ -71,7 +71,7 @@ func callsTo(fn *ssa.Function, pred func(*ssa.CallCommon) bool) []ssa.CallInstru
 
 func calleeNamed(c *ssa.CallCommon, recvType, name string) bool {
 	f := c.StaticCallee()
-	if f == nil || f.Name() != name {
+	if f == nil || an.RefFuncName(f) != name {
 		return false
 	}
 	if recvType == "" {
@@ -189,7 +189,7 @@ func c07SingleSender(p *load.Program, r *oblig.Report) {
 						continue
 					}
 					if mc, ok := (*op).(*ssa.MakeClosure); ok {
-						if f, ok := mc.Fn.(*ssa.Function); ok && f.Synthetic != "" && strings.Contains(f.Name(), target.Name()+"$bound") {
+						if f, ok := mc.Fn.(*ssa.Function); ok && f.Synthetic != "" && strings.Contains(an.RefFuncName(f), target.Name()+"$bound") {
 							_ = f
 						}
 					}
@@ -212,7 +212,7 @@ func c07SingleSender(p *load.Program, r *oblig.Report) {
 				return
 			}
 			f, ok := mc.Fn.(*ssa.Function)
-			if !ok || !strings.HasPrefix(f.Name(), "writeBatches$bound") {
+			if !ok || !strings.HasPrefix(an.RefFuncName(f), "writeBatches$bound") {
 				return
 			}
 			nSpawn++
@@ -351,6 +351,19 @@ func argIsCurrBatch(fn *ssa.Function, arg ssa.Value, at ssa.Instruction) bool {
 	var ok func(v ssa.Value, blk *ssa.BasicBlock, before ssa.Instruction) bool
 	ok = func(v ssa.Value, blk *ssa.BasicBlock, before ssa.Instruction) bool {
 		if isLoadOfField(v, "partitionWriter", "currBatch") {
+			return true
+		}
+		if prm, isP := v.(*ssa.Parameter); isP && an.IsNew(prm.Parent()) {
+			// inside a helper that did not exist at review time: the arguments at its call sites
+			vals, sites := an.ArgsAtSites(prm)
+			if len(vals) == 0 {
+				return false
+			}
+			for i := range vals {
+				if !ok(vals[i], nil, sites[i]) {
+					return false
+				}
+			}
 			return true
 		}
 		if seen[v] {
@@ -503,7 +516,7 @@ func c08Tables(p *load.Program, r *oblig.Report) {
 	{
 		atoms := func(v ssa.Value) (string, bool) {
 			if c, ok := v.(*ssa.Call); ok {
-				if f := c.Call.StaticCallee(); f != nil && f.Name() == "totalSize" {
+				if f := c.Call.StaticCallee(); f != nil && an.RefFuncName(f) == "totalSize" {
 					return "n", true
 				}
 				if b, ok := c.Call.Value.(*ssa.Builtin); ok && b.Name() == "cap" {
@@ -679,15 +692,15 @@ func c08CloseWhenFull(p *load.Program, r *oblig.Report) {
 	}{{add, false, "refused add"}, {full, true, "full batch"}} {
 		calls := callsTo(wm, func(c *ssa.CallCommon) bool { return an.StaticCalleeIs(c, spec.callee) })
 		if len(calls) != 1 {
-			r.Bad(rule, "writeMessages → "+spec.what, p.Pos(wm.Pos()), "one call of "+spec.callee.Name(), fmt.Sprint(len(calls)))
+			r.Bad(rule, "writeMessages → "+spec.what, p.Pos(wm.Pos()), "one call of "+an.RefFuncName(spec.callee), fmt.Sprint(len(calls)))
 			continue
 		}
 		call := calls[0].(*ssa.Call)
 		// the If on the call's result
 		iff, _ := an.IfCond(call.Block())
-		if iff == nil || (iff.Cond != ssa.Value(call)) {
+		if iff == nil || (an.CondOf(iff) != ssa.Value(call)) {
 			// `if !batch.add(...)`: cond is the call itself with swapped successors in SSA
-			if u, ok := iff.Cond.(*ssa.UnOp); !ok || u.X != ssa.Value(call) {
+			if u, ok := an.CondOf(iff).(*ssa.UnOp); !ok || u.X != ssa.Value(call) {
 				r.Undecided(rule, "writeMessages → "+spec.what, p.Pos(call.Pos()), "the result is not tested directly")
 				continue
 			}
@@ -696,7 +709,7 @@ func c08CloseWhenFull(p *load.Program, r *oblig.Report) {
 		if !spec.onTrue {
 			succ = call.Block().Succs[1]
 		}
-		if u, ok := iff.Cond.(*ssa.UnOp); ok && u.Op == token.NOT {
+		if u, ok := an.CondOf(iff).(*ssa.UnOp); ok && u.Op == token.NOT {
 			// negated condition: swap
 			if spec.onTrue {
 				succ = call.Block().Succs[1]
@@ -728,7 +741,7 @@ func c08CloseWhenFull(p *load.Program, r *oblig.Report) {
 		call := calls[0].(*ssa.Call)
 		succ := call.Block().Succs[1]
 		if iff, _ := an.IfCond(call.Block()); iff != nil {
-			if u, ok := iff.Cond.(*ssa.UnOp); ok && u.Op == token.NOT {
+			if u, ok := an.CondOf(iff).(*ssa.UnOp); ok && u.Op == token.NOT {
 				succ = call.Block().Succs[0]
 			}
 		}
@@ -764,7 +777,7 @@ func c08ValidationFirst(p *load.Program, r *oblig.Report) {
 	var after []string
 	nVal := 0
 	for _, name := range []string{"messageTooLarge", "chooseTopic", "partitions", "totalSize"} {
-		for _, c := range callsTo(WM, func(cc *ssa.CallCommon) bool { f := cc.StaticCallee(); return f != nil && f.Name() == name }) {
+		for _, c := range callsTo(WM, func(cc *ssa.CallCommon) bool { f := cc.StaticCallee(); return f != nil && an.RefFuncName(f) == name }) {
 			nVal++
 			q := an.PathQuery{Fn: WM, Target: func(i ssa.Instruction) bool { return i == c.(ssa.Instruction) }}
 			if q.ReachableFrom(an.PointOf(bm)) != nil {
@@ -776,10 +789,10 @@ func c08ValidationFirst(p *load.Program, r *oblig.Report) {
 	// batchMessages is outside the validation loops: the loop headers dominate it
 	okDom := true
 	for _, name := range []string{"chooseTopic", "totalSize"} {
-		for _, c := range callsTo(WM, func(cc *ssa.CallCommon) bool { f := cc.StaticCallee(); return f != nil && f.Name() == name }) {
+		for _, c := range callsTo(WM, func(cc *ssa.CallCommon) bool { f := cc.StaticCallee(); return f != nil && an.RefFuncName(f) == name }) {
 			// the loop header = the immediate dominator chain element with a back edge from c's block
 			hdr := loopHeaderOf(c.Block())
-			if hdr == nil || !hdr.Dominates(bm.Block()) {
+			if hdr == nil || !(hdr.Parent() == bm.Parent() && hdr.Dominates(bm.Block()) || hdr.Parent() != bm.Parent() && an.Dominates(hdr.Instrs[0], bm.(ssa.Instruction))) {
 				okDom = false
 			}
 			// and batchMessages is not inside that loop
@@ -924,7 +937,7 @@ func c08Limits(p *load.Program, r *oblig.Report) {
 	for _, c := range callsTo(wm, func(cc *ssa.CallCommon) bool { return an.StaticCalleeIs(cc, add) || an.StaticCalleeIs(cc, full) }) {
 		args := c.Common().Args
 		dSize, dBytes := argDesc(args[len(args)-2]), argDesc(args[len(args)-1])
-		r.Check(strings.HasSuffix(dSize, ".batchSize") && strings.HasSuffix(dBytes, ".batchBytes"), rule, "writeMessages → "+c.Common().StaticCallee().Name()+" compares with the writer's configured limits", p.Pos(c.Pos()), "w.batchSize(), w.batchBytes()", dSize+", "+dBytes)
+		r.Check(strings.HasSuffix(dSize, ".batchSize") && strings.HasSuffix(dBytes, ".batchBytes"), rule, "writeMessages → "+an.RefFuncName(c.Common().StaticCallee())+" compares with the writer's configured limits", p.Pos(c.Pos()), "w.batchSize(), w.batchBytes()", dSize+", "+dBytes)
 	}
 	// same measure in validation and in add
 	measure := func(fn *ssa.Function) string {
@@ -932,7 +945,7 @@ func c08Limits(p *load.Program, r *oblig.Report) {
 		an.EachInstr(fn, func(ins ssa.Instruction) {
 			if call, ok := ins.(*ssa.Call); ok {
 				if f := call.Call.StaticCallee(); f != nil && f.Signature.Recv() != nil && an.NamedIs(f.Signature.Recv().Type(), load.ModPath, "Message") {
-					names = append(names, f.Name())
+					names = append(names, an.RefFuncName(f))
 				}
 			}
 		})
@@ -1040,13 +1053,13 @@ func c01FanOut(p *load.Program, r *oblig.Report) {
 	r.RequireCount(rule+" (stores into WriteErrors)", n, 1)
 	// returned iff hasErrors; nil otherwise
 	okRet := false
-	for _, b := range WM.Blocks {
+	for _, b := range an.Blocks(WM) {
 		iff, _ := an.IfCond(b)
 		if iff == nil {
 			continue
 		}
 		// `if !hasErrors { return nil }`: cond is a phi of bools (hasErrors)
-		if _, isPhi := iff.Cond.(*ssa.Phi); isPhi {
+		if _, isPhi := an.CondOf(iff).(*ssa.Phi); isPhi {
 			for si, s := range b.Succs {
 				if ret, ok := s.Instrs[len(s.Instrs)-1].(*ssa.Return); ok && len(ret.Results) == 1 && an.IsNilConst(an.RetVal(ret, 0)) && si == 1 {
 					okRet = true
@@ -1581,7 +1594,7 @@ func c01ProduceResponse(p *load.Program, r *oblig.Report) {
 	r.Check(okReq, rule, "Client.Produce → the protocol request carries the caller's topic, partition, records and acks", p.Pos(fn.Pos()), "Topic/Partition/Records/Acks ← req.*", fmt.Sprint(reqGot))
 	// nil,nil only under RequireNone
 	okNone := false
-	for _, b := range fn.Blocks {
+	for _, b := range an.Blocks(fn) {
 		_, ci := an.IfCond(b)
 		if ci != nil && ci.Op == token.EQL && strings.HasSuffix(argDesc(ci.X), ".RequiredAcks") {
 			if k, ok := an.ConstInt(ci.Y); ok && k == 0 {
@@ -1593,7 +1606,6 @@ func c01ProduceResponse(p *load.Program, r *oblig.Report) {
 	}
 	r.Check(okNone, rule, "Client.Produce → a nil response without error only when no acknowledgement was requested", p.Pos(fn.Pos()), "if req.RequiredAcks == RequireNone { return nil, nil }", "not recognised")
 }
-
 
 func c01Temporary(p *load.Program, r *oblig.Report) {
 	const rule = "C01.R7 retriable error classification"
@@ -1630,7 +1642,7 @@ func c01Temporary(p *load.Program, r *oblig.Report) {
 	if tn != nil {
 		var names []string
 		an.EachInstr(tn, func(ins ssa.Instruction) {
-			if call, ok := ins.(*ssa.Call); ok && call.Call.StaticCallee() != nil && call.Call.StaticCallee().Name() == "Is" {
+			if call, ok := ins.(*ssa.Call); ok && call.Call.StaticCallee() != nil && an.RefFuncName(call.Call.StaticCallee()) == "Is" {
 				names = append(names, argDesc(call.Call.Args[1]))
 			}
 		})
